@@ -2,6 +2,7 @@
 # Final seed matrix: newest round first, then the other recent rounds against every check,
 # then the early rounds against their own property's check.
 cd "$(dirname "$0")/.."
+mkdir -p .work
 LANES=${LANES1:-1} SEED_GLOB="seeded/C*-r7" OUT=.work/matrix_final tools/seedmatrix.sh > .work/matrix_r7.md
 LANES=2 SEED_GLOB="seeded/C*-r[456]" OUT=.work/matrix_final tools/seedmatrix.sh > .work/matrix_r456.md
 LANES=2 SEED_CHECKS=own SEED_GLOB="seeded/C*-r[123]" OUT=.work/matrix_own tools/seedmatrix.sh > .work/matrix_r123_own.md
